@@ -32,3 +32,28 @@ Definition expected (hasbody : bool) (parse : option bytes) (consumes keys : lis
       else (Some 415, None)
     end
   else (None, None).
+
+(* ---- the same, from what the API author wrote: the operation's consumes list as declared, the API's default
+   media type and the media types a consumer is registered for on the API ---- *)
+
+(* the operation's consumes list, to which the API's default media type is always added *)
+Definition spec_consumes (declared : list bytes) (default : bytes) : list bytes :=
+  if is_nilb default then declared else declared ++ [default].
+
+(* the media type is named by an entry of the list (parameters of the entry ignored) *)
+Definition listed (consumes : list bytes) (mt : bytes) : bool :=
+  existsb (fun e => bytes_eqb mt (strip_params e)) consumes.
+Definition listed_ci (consumes : list bytes) (mt : bytes) : bool :=
+  existsb (fun e => ci_eqb mt (strip_params e)) consumes.
+
+(* the consumers available to the operation: those registered on the API for a media type its list names
+   (a type admitted only through a wildcard entry has none, see notes) *)
+Definition spec_keys (declared : list bytes) (default : bytes) (registered : list bytes) : list bytes :=
+  filter (listed (spec_consumes declared default)) registered.
+
+Definition expected_route (hasbody : bool) (parse : option bytes) (declared : list bytes) (default : bytes)
+  (registered : list bytes) : option nat * option bytes :=
+  expected hasbody parse (spec_consumes declared default) (spec_keys declared default registered).
+
+(* what the property quantifies over: lists spelled in lower case *)
+Definition all_lower (l : list bytes) : bool := forallb (fun e => bytes_eqb (lower e) e) l.
